@@ -703,6 +703,27 @@ def templates(op, spox):
     t("c_value_ints_empty", (), ("IV",), lambda a, p: [op.constant(value_ints=[])])
     t("c_value_string", (), ("STR0",), lambda a, p: [op.constant(value_string="héllo")])
     t("c_value_strings", (), ("STR2",), lambda a, p: [op.constant(value_strings=["a", "bç"])])
+    # arrays in the non-native byte order, and read-only views of a buffer that its owner goes on modifying
+    t("c_value_be_i8", (), ("I3",), lambda a, p: [op.constant(value=np.array([2, 0, 1], dtype=">i8"))])
+    t("c_value_be_f4", (), ("F6",), lambda a, p: [op.constant(value=np.arange(6).astype(">f4") * 0.5)])
+    t("init_be_f4", (), ("F3",), lambda a, p: [spox._future.initializer(np.array([1.5, -2.0, 3.0], dtype=">f4"))])
+
+    def c_readonly_view(a, p):
+        scratch = np.array([True, False])
+        r = op.constant(value=np.broadcast_to(scratch, (2,)))
+        scratch[:] = [False, True]
+        return [r]
+
+    def c_readonly_view_f(a, p):
+        scratch = np.arange(3, dtype=np.float32)
+        view = scratch[:]
+        view.setflags(write=False)
+        r = op.constant(value=view)
+        scratch += 10
+        return [r]
+
+    t("c_readonly_view_bool", (), ("B",), c_readonly_view)
+    t("c_readonly_view_f3", (), ("F3",), c_readonly_view_f)
     t("init_f6", (), ("F6",), lambda a, p: [spox._future.initializer(np.arange(6, dtype=np.float32) - 2)])
     t("init_i3", (), ("I3",), lambda a, p: [spox._future.initializer(np.array([1, 1, 2], np.int64))])
     t("init_str", (), ("STR2",), lambda a, p: [spox._future.initializer(np.array(["x", "yz"]))])
@@ -760,6 +781,7 @@ def templates(op, spox):
     t("inline_1", (("F23",),), ("F23", "F6"), inline1)
     t("inline_2", (("F6",), ("F6",)), ("F6",), inline2)
     t("inline_mut", (("F6",),), ("F6",), inline_mut)
+    t("inline_5_old_mixed", (("F23",),), ("F23OLD",), lambda a, p: list(spox.inline(inline_model_5())(a[0]).values()))
     return T
 
 
@@ -803,6 +825,23 @@ def inline_model_4(op, spox):
         a = spox.argument(Tensor(np.float32, (6,)))
         _INLINE_CACHE["m4"] = spox.build({"a": a}, {"r": op.mul(a, op.const(np.array(2.0, np.float32)))})
     return _INLINE_CACHE["m4"]
+
+
+def inline_model_5():
+    """an opset-11 model (Softmax's meaning changed at 13) that also holds a node of another domain: the shape sklearn converters
+    produce; the default-domain part has to be converted to the surrounding model's opset"""
+    if "m5" not in _INLINE_CACHE:
+        import onnx
+        from onnx import TensorProto as TP, helper as oh
+
+        g = oh.make_graph(
+            [oh.make_node("Softmax", ["x"], ["s"], axis=0),
+             oh.make_node("Scaler", ["s"], ["y"], domain="ai.onnx.ml", scale=[2.0], offset=[0.5])],
+            "g", [oh.make_tensor_value_info("x", TP.FLOAT, [2, 3])], [oh.make_tensor_value_info("y", TP.FLOAT, [2, 3])])
+        m = oh.make_model(g, opset_imports=[oh.make_operatorsetid("", 11), oh.make_operatorsetid("ai.onnx.ml", 1)], ir_version=8)
+        onnx.checker.check_model(m, full_check=True)
+        _INLINE_CACHE["m5"] = m
+    return _INLINE_CACHE["m5"]
 
 
 def gen_sources(rng):
